@@ -50,6 +50,12 @@ def scene_list(tier):
         sc += _deckfam.two_deck_scenes(tier) + _deckfam.two_ceilo_scenes(tier)
     out = [(n, s, {}) for n, s in sc]
     out.append(('split+msa', D({'h': 1000., 'n': 60, 'pattern': 'bimodal400'}, {'h': 9000., 'n': 20}, T=60), {'MSA': 3000., 'MSA_HIT_BUFFER': 0.}))
+    # only zero-okta slices that merge into a reportable group, at / above / below an MSA (NCD vs NSC decided per level)
+    for msa in (4900., 5100., 5300., 6000.):
+        for buf in (1500., 0.):
+            out.append(('zero-okta-merge:%g:%g' % (msa, buf), rows([['a', 0.0 - 15. * i, 5000. if i % 2 == 0 else 5240., 1] for i in range(6)]
+                                                                       + [['a', -120., None, 0], ['a', -135., 9000., 1]]),
+                        {'MSA': msa, 'MSA_HIT_BUFFER': buf}))
     wn = scenes.witness_names()
     for name in wn:
         out.append((name, {'gen': 'witness', 'name': name}, {}))
